@@ -741,6 +741,7 @@ func (x *Exec) loopStep(fr *frame, li *loopInfo, latch, head *ssa.BasicBlock) {
 	// `loop k reaches X [when E]`: this iteration passed through a site X inside the loop
 	for i, lr := range li.spec.Reaches {
 		var sites []string
+		dominated := false
 		if x.trace != nil {
 			if lr.What == "send" {
 				for _, sd := range x.trace.sends {
@@ -758,6 +759,10 @@ func (x *Exec) loopStep(fr *frame, li *loopInfo, latch, head *ssa.BasicBlock) {
 				for _, c := range x.trace.calls {
 					if c.Fn == fr.fn && c.Depth == fr.depth && c.Instr != nil && li.blocks[c.Instr.Block()] && calleeMatch(strings.TrimPrefix(lr.What, "call "), c.Callee) {
 						sites = append(sites, c.Reach)
+						// the site's block dominates the back edge: every iteration that goes round passed it
+						if !c.IsDefer && (c.Instr.Block() == latch || c.Instr.Block().Dominates(latch)) {
+							dominated = true
+						}
 					}
 				}
 			}
@@ -765,6 +770,9 @@ func (x *Exec) loopStep(fr *frame, li *loopInfo, latch, head *ssa.BasicBlock) {
 		goal := or(sites...)
 		if len(sites) == 0 {
 			goal = "false"
+		}
+		if dominated {
+			goal = "true"
 		}
 		if lr.When != nil {
 			// the condition speaks about this iteration's values: evaluated at the back edge
